@@ -11,6 +11,19 @@ use crate::rng::Rng;
 use walrus::ir::BinaryOp;
 use walrus::{FunctionId, GlobalId, LocalId, ModuleConfig};
 
+/// custom section that reads, at emit time, the output index of one function identifier
+#[derive(Debug)]
+struct WhereIs(walrus::FunctionId, std::sync::Arc<std::sync::Mutex<Option<u32>>>);
+impl walrus::CustomSection for WhereIs {
+    fn name(&self) -> &str {
+        "verif.whereis"
+    }
+    fn data(&self, ids: &walrus::IdsToIndices) -> std::borrow::Cow<[u8]> {
+        *self.1.lock().unwrap() = Some(ids.get_func_index(self.0));
+        std::borrow::Cow::Borrowed(&[])
+    }
+}
+
 #[derive(Clone, Debug)]
 enum Stmt {
     /// call function (input index) with constant arguments, drop the results
@@ -310,11 +323,12 @@ fn run_case(case: &str, wasm: &[u8], kind_imp: bool, pick: u64, seed: u64, stats
         .collect();
     let edited = out::catch(|| {
         if kind_imp {
-            m.replace_imported_func(fid, |(b, args)| build(&body, b, args, &fids, &gids, &scratch)).map(|id| id == fid)
+            m.replace_imported_func(fid, |(b, args)| build(&body, b, args, &fids, &gids, &scratch)).map(|id| (id, id == fid))
         } else {
-            m.replace_exported_func(fid, |(b, args)| build(&body, b, args, &fids, &gids, &scratch)).map(|id| id != fid)
+            m.replace_exported_func(fid, |(b, args)| build(&body, b, args, &fids, &gids, &scratch)).map(|id| (id, id != fid))
         }
     });
+    let mut replacement: Option<FunctionId> = None;
     match edited {
         Err(p) => {
             fails.push(("C18:edit-panicked".into(), format!("the edit panicked: {}", &p[..p.len().min(160)])));
@@ -335,7 +349,8 @@ fn run_case(case: &str, wasm: &[u8], kind_imp: bool, pick: u64, seed: u64, stats
             report(case, fails, &only);
             return;
         }
-        Ok(Ok(id_ok)) => {
+        Ok(Ok((new_id, id_ok))) => {
+            replacement = Some(new_id);
             if expect_reject {
                 fails.push(("C18:import-replaced-as-export".into(), "replace_exported_func accepted an imported function".into()));
             }
@@ -347,6 +362,10 @@ fn run_case(case: &str, wasm: &[u8], kind_imp: bool, pick: u64, seed: u64, stats
     if kind_imp { stats.imp += 1 } else { stats.exp += 1 }
     if matches!(body, Body::Forward(_)) {
         stats.forward += 1;
+    }
+    let whereis = std::sync::Arc::new(std::sync::Mutex::new(None));
+    if let Some(id) = replacement {
+        m.customs.add(WhereIs(id, whereis.clone()));
     }
     let bytes = match out::catch(|| m.emit_wasm()) {
         Ok(b) => b,
@@ -441,6 +460,23 @@ fn run_case(case: &str, wasm: &[u8], kind_imp: bool, pick: u64, seed: u64, stats
                     }
                 }
             }
+        }
+    }
+    // the body that was built is the body that is written: operator by operator, by name (indices are
+    // renumbered, names are not), for the replacement wherever the emitter put it
+    if let Some(idx) = *whereis.lock().unwrap() {
+        let bni = b.n_imported(Space::Func);
+        let np = a.func_type(target).and_then(|t| a.types.get(t as usize)).map(|t| t.0.len()).unwrap_or(0);
+        if idx >= bni {
+            if let Some(code) = b.code.get((idx - bni) as usize) {
+                let want: Vec<String> = body_text(&body, np).split(' ').filter(|t| !t.starts_with("locals:")).map(|t| t.split('/').next().unwrap_or("").to_string()).collect();
+                let got: Vec<String> = code.ops.iter().map(|o| o.name.to_string()).collect();
+                if want != got {
+                    fails.push(("C18:replacement-body-differs-from-what-was-built".into(), format!("built {:?}, emitted {:?}", want, got)));
+                }
+            }
+        } else {
+            fails.push(("C18:replacement-is-an-import".into(), format!("the replacement function is emitted at index {}, among the imports", idx)));
         }
     }
     let want_funcs = a.count(Space::Func) + if kind_imp { 0 } else { 1 };
